@@ -288,15 +288,21 @@ fn check(c: &Case, obs: &mut Obs) -> Verdict {
         obs.nontrivial();
     }
 
-    if refs.iter().any(|(want, _)| *want == got) {
+    verdict_from(&refs, &got, dup, &format!("orig {:?}, adj {:?}", c.orig, c.adj))
+}
+
+/// Compares the result with every reference the statement allows; K1 (extra tokens that only a
+/// zero-length stretch explains, nothing missing, duplicated positions present) is reported as
+/// the known finding, everything else as a failure.
+fn verdict_from<T: Ord + Clone + std::fmt::Debug>(refs: &[(Vec<T>, Vec<T>)], got: &[T], dup: bool, what: &str) -> Verdict {
+    if refs.iter().any(|(want, _)| want.as_slice() == got) {
         return Verdict::Pass;
     }
-    // K1: the only difference are extra tokens, each explained by a zero-length stretch
     let mut report = String::new();
-    for (want, zero) in &refs {
+    for (want, zero) in refs {
         let mut extra = vec![];
         let mut w = want.clone();
-        for g in &got {
+        for g in got {
             if let Some(i) = w.iter().position(|x| x == g) {
                 w.remove(i);
             } else {
@@ -314,10 +320,7 @@ fn check(c: &Case, obs: &mut Obs) -> Verdict {
                 None => false,
             });
             if all {
-                return Verdict::Known(
-                    "K1",
-                    format!("{} extra token(s) {:?} for zero-length stretches (orig {:?}, adj {:?})", extra.len(), extra, c.orig, c.adj),
-                );
+                return Verdict::Known("K1", format!("{} extra token(s) {:?} for zero-length stretches ({what})", extra.len(), extra));
             }
         }
         if report.is_empty() {
@@ -328,6 +331,199 @@ fn check(c: &Case, obs: &mut Obs) -> Verdict {
         "adjust_mappings result differs from the interval composition (for every order of the tokens sharing a position; {} order(s) tried): {report}",
         refs.len()
     ))
+}
+
+// --- chains: maps reused across several compositions ------------------------------------------
+
+#[derive(Clone, Debug, Hash, Serialize, Deserialize)]
+pub enum ChainMap {
+    Orig(Vec<OTok>),
+    Adj(Vec<ATok>),
+}
+
+#[derive(Clone, Debug, Hash, Serialize, Deserialize)]
+pub enum ChainOp {
+    /// `maps[i].adjust_mappings(&maps[j])`
+    Adjust(u8, u8),
+    /// read-only use of `maps[i]` (lookups, serialisation, iteration) between compositions
+    Touch(u8),
+}
+
+#[derive(Clone, Debug, Hash, Serialize, Deserialize)]
+pub struct ChainCase {
+    pub maps: Vec<(ChainMap, Route)>,
+    pub ops: Vec<ChainOp>,
+}
+
+type Full = (Pos, (u32, u32, u32, u32, bool));
+
+fn raw_tokens(sm: &sourcemap::SourceMap) -> Vec<sourcemap::RawToken> {
+    sm.tokens().map(|t| t.get_raw_token()).collect()
+}
+
+fn max_tie(mut v: Vec<Pos>) -> usize {
+    v.sort();
+    let mut best = 0;
+    let mut i = 0;
+    while i < v.len() {
+        let mut j = i;
+        while j < v.len() && v[j] == v[i] {
+            j += 1;
+        }
+        best = best.max(j - i);
+        i = j;
+    }
+    best
+}
+
+/// Every composition in a chain is a plain "compose a map with an adjustment map as they are at
+/// the time of the call": the states are read through `tokens()` before the call and the result
+/// is judged against the interval composition of exactly those two token lists.
+fn check_chain(c: &ChainCase, obs: &mut Obs) -> Verdict {
+    let mut maps = vec![];
+    for (m, route) in &c.maps {
+        let built = match m {
+            ChainMap::Orig(o) => orig_model(&Case { orig: o.clone(), adj: vec![], route: *route }).build(),
+            ChainMap::Adj(a) => adj_model(&Case { orig: vec![], adj: a.clone(), route: *route }).build(),
+        };
+        match built {
+            Ok(m) => maps.push(m),
+            Err(e) => return Verdict::Fail(e),
+        }
+    }
+    let mut known: Option<Verdict> = None;
+    let mut used_as_adj = vec![false; maps.len()];
+    let mut adjusted_after_use = vec![false; maps.len()];
+    let mut steps = 0;
+    for (k, op) in c.ops.iter().enumerate() {
+        match *op {
+            ChainOp::Touch(i) => {
+                let sm = &maps[i as usize % maps.len()];
+                let r = guard(|| {
+                    let mut n = 0usize;
+                    for t in sm.tokens() {
+                        let (l, col) = t.get_dst();
+                        n += usize::from(sm.lookup_token(l, col).is_some());
+                    }
+                    let _ = sm.lookup_token(0, 0);
+                    let _ = sm.lookup_token(u32::MAX, u32::MAX);
+                    let mut out = vec![];
+                    sm.to_writer(&mut out).map(|_| n + out.len()).map_err(|e| e.to_string())
+                });
+                match r {
+                    Ok(Ok(_)) => {}
+                    Ok(Err(e)) => return Verdict::Fail(format!("op {k} {op:?}: serialising failed: {e}")),
+                    Err(p) => return Verdict::Fail(format!("op {k} {op:?}: {p}")),
+                }
+            }
+            ChainOp::Adjust(i, j) => {
+                let (i, j) = (i as usize % maps.len(), j as usize % maps.len());
+                if i == j {
+                    continue;
+                }
+                let pre_i = raw_tokens(&maps[i]);
+                let pre_j = raw_tokens(&maps[j]);
+                // domain: adjustment tokens all have a source; payload index fits u8; tie groups small
+                // enough for every order to be tried
+                if pre_j.iter().any(|t| t.src_id == !0) {
+                    continue;
+                }
+                let tie = max_tie(pre_i.iter().map(|t| (t.dst_line, t.dst_col)).collect()).max(max_tie(pre_j.iter().map(|t| (t.src_line, t.src_col)).collect()));
+                if pre_i.len() > 200 || pre_j.len() > 200 || tie > 4 {
+                    obs.class("chain-stopped(size or tie group beyond what the reference enumerates)");
+                    break;
+                }
+                let before = obs_map(&maps[i]);
+                // the adjustment is passed by reference to the very object that stays in the pool
+                let (head, tail) = maps.split_at_mut(i.max(j));
+                let (target, adjref) = if i < j { (&mut head[i], &tail[0]) } else { (&mut tail[0], &head[j]) };
+                if let Err(p) = guard(|| target.adjust_mappings(adjref)) {
+                    return Verdict::Fail(format!("op {k} {op:?}: adjust_mappings: {p}"));
+                }
+                let after = obs_map(&maps[i]);
+                ensure!(after.positions_sorted(), "op {k} {op:?}: result is not ordered by generated position");
+                ensure_eq!(after.sources, before.sources, "op {k}: sources changed");
+                ensure_eq!(after.names, before.names, "op {k}: names changed");
+                ensure_eq!(after.contents, before.contents, "op {k}: contents changed");
+                ensure_eq!(raw_tokens(&maps[j]), pre_j, "op {k}: the adjustment map itself changed");
+                let case = Case {
+                    orig: pre_i.iter().enumerate().map(|(n, t)| OTok { pos: (t.dst_line, t.dst_col), payload: n as u8 }).collect(),
+                    adj: pre_j.iter().map(|t| ATok { src: (t.src_line, t.src_col), dst: (t.dst_line, t.dst_col) }).collect(),
+                    route: Route::Raw,
+                };
+                let full = |r: &RTok| -> Full {
+                    let t = &pre_i[r.payload as usize];
+                    (r.pos, (t.src_id, t.src_line, t.src_col, t.name_id, t.is_range))
+                };
+                let refs: Vec<(Vec<Full>, Vec<Full>)> = references(&case)
+                    .into_iter()
+                    .map(|(w, z)| {
+                        let mut w: Vec<Full> = w.iter().map(full).collect();
+                        let mut z: Vec<Full> = z.iter().map(full).collect();
+                        w.sort();
+                        z.sort();
+                        (w, z)
+                    })
+                    .collect();
+                let mut got: Vec<Full> = raw_tokens(&maps[i])
+                    .iter()
+                    .map(|t| ((t.dst_line, t.dst_col), (t.src_id, t.src_line, t.src_col, t.name_id, t.is_range)))
+                    .collect();
+                got.sort();
+                let dup = tie > 1;
+                match verdict_from(&refs, &got, dup, &format!("op {k} {op:?}: target tokens {pre_i:?}, adjustment tokens {pre_j:?}")) {
+                    Verdict::Pass => {}
+                    v @ Verdict::Known(..) => known = Some(v),
+                    Verdict::Fail(m) => return Verdict::Fail(format!("op {k} {op:?} (target tokens {pre_i:?}, adjustment tokens {pre_j:?}): {m}")),
+                }
+                steps += 1;
+                if used_as_adj[i] {
+                    adjusted_after_use[i] = true;
+                }
+                if adjusted_after_use[j] {
+                    obs.class("adjustment-reused-after-being-adjusted-itself");
+                    obs.nontrivial();
+                }
+                used_as_adj[j] = true;
+                obs.class_if(dup, "chain-step-with-duplicate-positions");
+            }
+        }
+    }
+    obs.class(match steps {
+        0 => "chain-0-compositions",
+        1 => "chain-1-composition",
+        2 => "chain-2-compositions",
+        _ => "chain>=3-compositions",
+    });
+    known.unwrap_or(Verdict::Pass)
+}
+
+fn chains(_t: Tier) -> BoxedStrategy<ChainCase> {
+    let route = || prop_oneof![Just(Route::Raw), Just(Route::Builder), Just(Route::Doc)];
+    let orig = (vec((pos_strategy(3, 8), 0u8..12), 0..6), route())
+        .prop_map(|(o, r)| (ChainMap::Orig(distinct_by(o, |x| x.0).into_iter().map(|(pos, payload)| OTok { pos, payload }).collect()), r));
+    let adj = (vec((pos_strategy(3, 8), pos_strategy(4, 10)), 1..4), route())
+        .prop_map(|(a, r)| (ChainMap::Adj(distinct_by(a, |x| x.0).into_iter().map(|(src, dst)| ATok { src, dst }).collect()), r));
+    (vec(orig, 1..3), vec(adj, 2..4), vec((0u8..3, any::<u16>(), any::<u16>()), 2..8))
+        .prop_map(|(o, a, ops)| {
+            let no = o.len();
+            let na = a.len();
+            let n = no + na;
+            let pick = |x: u16, len: usize| ((x as usize * len) >> 16) as u8;
+            let ops = ops
+                .into_iter()
+                .map(|(kind, x, y)| {
+                    if kind == 0 {
+                        ChainOp::Touch(pick(x, n))
+                    } else {
+                        // the adjustment side is always a map whose tokens all have a source
+                        ChainOp::Adjust(pick(x, n), no as u8 + pick(y, na))
+                    }
+                })
+                .collect();
+            ChainCase { maps: o.into_iter().chain(a).collect(), ops }
+        })
+        .boxed()
 }
 
 // --- generators ----------------------------------------------------------------------------
@@ -490,6 +686,7 @@ fn subs() -> Vec<Sub> {
         gen_sub("random", random, |t| t.pick(30_000, 1_000_000), check),
         gen_sub("long_and_wide", long_and_wide, |t| t.pick(1_500, 40_000), check),
         gen_sub("duplicates", duplicates, |t| t.pick(10_000, 300_000), check),
+        gen_sub("chains", chains, |t| t.pick(30_000, 600_000), check_chain),
     ]
 }
 
@@ -497,7 +694,7 @@ pub const DEF: PropertyDef = PropertyDef {
     id: "C10",
     rule: "pairs (original, adjustment): exhaustive on a 2x4 grid (original sets <= 3, adjustment sets <= 2 with every src/dst), random on \
            4x12 (thorough 6x20) grids with <= 8 + <= 6 tokens at distinct positions, a duplicates class (same position twice on either \
-           side), and long_and_wide (60..400 original tokens over hundreds of lines, columns up to ~130000, 1..6 adjustment tokens). Oracle: brute-force interval composition from the statement (stretch = start .. min(next start, end of line)); result \
+           side), and long_and_wide (60..400 original tokens over hundreds of lines, columns up to ~130000, 1..6 adjustment tokens), and chains: a pool of 3..5 maps composed with one another in 2..7 steps (a map used as an adjustment, adjusted itself, used again; read-only use in between), every step judged on the token lists read just before it. Oracle: brute-force interval composition from the statement (stretch = start .. min(next start, end of line)); result \
            compared as a multiset + sortedness + untouched sources/names/contents; payload (source, original position, name, range flag) \
            identified per token. Non-trivial = >= 2 + >= 2 tokens with an original stretch split by an adjustment boundary and an \
            adjustment stretch covering >= 2 originals",
